@@ -256,29 +256,6 @@ def run(ctx):
 
     check_orbital_semantics(ctx)
     ga = mo.getters["occsa"]
-    # sibling agreement: the integer-occupation heuristic is written three times (occsa, occsb, spinpol); the copies
-    # must decide with the same predicate (one level of helper calls is inlined before comparing)
-    preds = {}
-    for nm in ("occsa", "occsb", "spinpol"):
-        g = mo.getters.get(nm)
-        if g is None:
-            continue
-        outer = [n for n in g.own_nodes() if isinstance(n, ast.If) and src_of(n.test) == "self.occs_aminusb is None"]
-        inner = [n for o in outer for n in o.body if isinstance(n, ast.If)]
-        if len(inner) != 1:
-            ctx.violate("R3", f"{nm}: cannot find the single heuristic test under `self.occs_aminusb is None`", g, g.node, construct=f"{nm} heuristic test")
-            continue
-        preds[nm] = (_inline_pred(prog, g, inner[0].test), inner[0], g)
-    if len(preds) == 3:
-        texts = {nm: v[0] for nm, v in preds.items()}
-        if len(set(texts.values())) == 1:
-            ctx.ok("R3", f"occsa, occsb and spinpol decide open-shell vs natural-orbital with the same predicate `{texts['occsa'][:60]}`", f"{ga.module.relpath}:{preds['occsa'][1].lineno}")
-        else:
-            ref = texts["occsa"] if texts["occsa"] == texts["occsb"] else None
-            for nm, (t, node, g) in preds.items():
-                if (ref is not None and t != ref) or (ref is None and nm != "spinpol"):
-                    ctx.violate("R3", f"{nm} decides the restricted heuristic with `{t[:70]}` while its siblings use a different predicate ({ {k: v[:40] for k, v in texts.items() if k != nm} }): occsa/occsb/spinpol then disagree for some occupations", g, node)
-
     # ------------------------------------------------------------------ R6
     ctx.rule("R6", "Shell.nbasis follows angular momenta and kinds", "a wrong function count mis-sizes every matrix built from the basis")
     nb = sh.getters.get("nbasis")
